@@ -392,7 +392,7 @@ def serve_object(req: Req, obj: dict[str, Any], peers: dict[str, str] | None = N
                      "endless": hard_limit, "drop_first": k (drop the first k attempts), "drop_mode": True (RST) | "fin"}
     range           {"mode": "honour"|"ignore"|"short"|"long"|"endless"|"shift_honest"|"shift_lying"|
                      "no_cr"|"416"|"500"|"total_lie", "slow": {start_offset: seconds} (first request for
-                     that range only), "fail_first": [start_offsets] (500 on the first request),
+                     that range only), "fail_first": [start_offsets] (500 on the first request), "fail_later": [start_offsets] (500 on every later one),
                      "abort_first": [start_offsets] (reset mid-body on the first request), "chunk_delay": s}
     probe           {"mode": "range"|"200"|"403"|"405"|"206_no_cr"|"206_bad_cr"|"206_long"|"500"}  (Range: bytes=0-0)
     """
@@ -549,6 +549,9 @@ def serve_object(req: Req, obj: dict[str, Any], peers: dict[str, str] | None = N
     beh = {"status": 206, "headers": ce_headers("same"), "chunk": rs.get("chunk", 16384), "chunk_delay": rs.get("chunk_delay")}
     if first and str(a) in {str(k) for k in (rs.get("fail_first") or [])}:
         return {"status": 500, "body": b"transient"}
+    # "fail_later": every request for that range except the first one fails (a hedge or retry that does not help)
+    if not first and str(a) in {str(k) for k in (rs.get("fail_later") or [])}:
+        return {"status": 500, "body": b"hedge refused"}
     slow = {str(k): v for k, v in (rs.get("slow") or {}).items()}
     if first and str(a) in slow:
         beh["pre_delay"] = float(slow[str(a)])
